@@ -58,3 +58,26 @@ Example ex_model_implies_spec : spec_check (CEgcd 12 (-18) 30 (Ret (Some (-5, -5
 Proof. apply c11_model_implies_spec; [exact ex_in_scope|vm_compute; reflexivity]. Qed.
 Example ex_model_implies_spec_crt : spec_check (CCrt 2 4 4 6 (Ret (Some 10))) = true.
 Proof. apply c11_model_implies_spec; [cbn [in_scope]; lia|vm_compute; reflexivity]. Qed.
+
+Example ex_egcd_t_run :
+  egcd_t 12 (-18) 30 = (Ret (Some (-5, -5)), [-5; 5; -5; 0; -5; 0; -2; 0; -1; -6; 30; -18; 12]).
+Proof. vm_compute. reflexivity. Qed.
+Example ex_crt_t_run : fst (crt_t 2 4 4 6) = Ret (Some 10) /\ length (snd (crt_t 2 4 4 6)) = 24%nat.
+Proof. vm_compute. split; reflexivity. Qed.
+Example ex_fits_2_20 :
+  Forall (fun v => Z.abs v < 2 ^ 62) (snd (gcd_t 1048576 (-1048575))) /\
+  Forall (fun v => Z.abs v < 2 ^ 62) (snd (lcm_t 1048576 (-1048575))) /\
+  Forall (fun v => Z.abs v < 2 ^ 62) (snd (egcd_t 1048576 (-1048575) 1048573)).
+Proof. apply c11_fits_2_20; lia. Qed.
+Example ex_fits_2_20_crt :
+  Forall (fun v => Z.abs v < 2 ^ 62) (snd (crt_t 1048574 1048575 1048575 1048576)).
+Proof. apply c11_fits_2_20_crt; lia. Qed.
+(** the general form at M = 2^31: operands up to 2^31 keep every intermediate within i64 *)
+Example ex_fits_general :
+  Forall (fun v => Z.abs v <= 2 ^ 31 * 2 ^ 31) (snd (egcd_t 2147483648 (-2147483647) 2147483645)).
+Proof. apply (c11_fits_general (2 ^ 31) 2147483648 (-2147483647) 2147483645); lia. Qed.
+Example ex_fits_general_crt :
+  Forall (fun v => Z.abs v <= 2 ^ 31 * 2 ^ 31 + 2 ^ 31) (snd (crt_t 2 4 4 6)).
+Proof. apply (c11_fits_general_crt (2 ^ 31)); lia. Qed.
+Example ex_trace_same : fst (egcd_t 12 (-18) 30) = egcd 12 (-18) 30.
+Proof. apply (c11_trace_same 12 (-18) 30 0 1 0 1). Qed.
